@@ -177,6 +177,19 @@ func invalidSeeds() []string {
 	s = append(s, docgen.Obj("LineString", `"coordinates":`+big(70, 4, 4, 5, 5)))
 	s = append(s, docgen.Obj("MultiPolygon", `"coordinates":[[`+big(20, 3, 2, 4, 3)+`],[`+big(33, 10, 2, 2, 3)+`]]`))
 	s = append(s, docgen.Obj("Feature", `"geometry":`+docgen.Obj("Polygon", `"coordinates":[`+big(24, 1, 2, 3, 4)+`]`), `"id":"big"`))
+	// decimal coordinates with vertices bit-exactly on the candidate quadtree
+	// midlines of the bounding box (see the C04 family of the same name); the
+	// probe pool has points just west of the teeth at exactly those latitudes
+	{
+		pts := families[familyIndex("decimal-midline")].gen(84)
+		var ps []string
+		for _, p := range pts {
+			ps = append(ps, docgen.Pos(p.X, p.Y))
+		}
+		ps = append(ps, ps[0])
+		s = append(s, docgen.Obj("Polygon", `"coordinates":[[`+strings.Join(ps, ",")+`]]`))
+		s = append(s, docgen.Obj("LineString", `"coordinates":[`+strings.Join(ps, ",")+`]`))
+	}
 	s = append(s, `{"type":"GeometryCollection","geometries":[{"type":"Point","coordinates":[1,2]},{"type":"Polygon","coordinates":[[[0,0],[4,0],[4,4],[0,4],[0,0]]]},{"type":"Feature","geometry":{"type":"Point","coordinates":[1,2]},"properties":{"type":"Circle","radius":5000}}]}`)
 	return s
 }
@@ -260,6 +273,8 @@ func runC08(r *rt.Run) {
 		k := 1
 		if n := len(docgen.T(seeds[i])); r.Thorough() && n <= 40 {
 			k = 2
+		} else if n > 160 && !r.Thorough() {
+			k = 0 // long seeds: full option product only (quick)
 		}
 		n := neighbourhood(seeds[i], k, func(text string, dev int) {
 			w.Trans++
@@ -310,4 +325,13 @@ func dropCount(a string) string {
 		return a
 	}
 	return a[:i] + a[j:]
+}
+
+func familyIndex(name string) int {
+	for i, f := range families {
+		if f.name == name {
+			return i
+		}
+	}
+	panic("no family " + name)
 }
